@@ -2325,8 +2325,16 @@ get_quoted_char(int c) {
 
   string str = scan_quoted(c);
   YYSTYPE result;
-  if (!str.empty()) {
+  if (str.size() == 1) {
     result.u.integer = (int)str[0];
+  } else if (!str.empty()) {
+    // A multi-character literal has type int; like gcc and clang, build its
+    // value one character at a time (the last four characters count).
+    unsigned int value = 0;
+    for (char ch : str) {
+      value = (value << 8) | (unsigned char)ch;
+    }
+    result.u.integer = (int)value;
   } else {
     result.u.integer = 0;
   }
